@@ -18,7 +18,7 @@ sys.path.insert(0, HERE)
 import rx  # noqa
 
 REPO = os.environ.get('VERIF_REPO', '/repo')
-BUILD = os.path.join(ROOT, 'build')
+BUILD = os.environ.get('VERIF_BUILD') or os.path.join(ROOT, 'build')
 UNITS = os.path.join(ROOT, 'units')
 VERUS = os.environ.get('VERUS', 'verus')
 VERUS_TIMEOUT = int(os.environ.get('VERIF_VERUS_TIMEOUT', '600'))
